@@ -86,11 +86,28 @@ def run_leaf(pid, tier, body):
     nval, vfails = csxlib.validate_witnesses(L.sx, ir)
     print(f"[{pid}] translator validation: {nval}/{len(ir['witnesses'])} honest witnesses of the real generators satisfy the encoding", flush=True)
     inconcl = [f"translator validation: {lbl}: {why}" for lbl, why in vfails]
+    if nval == 0:
+        inconcl.append("translator validation: no honest witness of the real generators is available on this tree")
     sessions = body(L, tier)
     results = [r for s in sessions for r in s.results]
     replays = {}
+    # honest inputs (built natively by csx-emit/src/leafgen.rs: canonical digests, valid 4-ary path, fee rule) that the REAL
+    # witness filler / generators reject: a concrete completeness failure at the prover boundary, reported under C05 only
+    genfails = [w for w in ir.get("witnesses", []) if w["label"].endswith(":GENFAIL")]
+    for w in genfails:
+        aux = w["aux"] if isinstance(w["aux"], dict) else json.loads(w["aux"])
+        print(f"[{pid}] real leaf witness filler rejects honest input '{w['label'][:-8]}': {aux.get('genfail')}", flush=True)
+        if pid == "C05":
+            name = f"honest input '{w['label'][:-8]}' is accepted by the real witness filler/generators"
+            r = csxlib.Result(name, "holds", "CEX", 0.0)
+            path = csxlib.replay_path(pid)
+            json.dump({"query": name, "honest_input": aux.get("inputs"), "real_code_error": aux.get("genfail"),
+                       "reproduce": f"csx-emit emit <dir> {csxlib.env_seed()} - leaf  (label {w['label']})"}, open(path, "w"))
+            sessions[0].results.append(r)
+            results.append(r)
+            replays[name] = (True, path, f"{name}: real code returned: {aux.get('genfail')}")
     for r in results:
-        if r.verdict == "CEX" and r.model:
+        if r.verdict == "CEX" and r.model and r.name not in replays:
             try:
                 replays[r.name] = leaf_replay(pid, L, r)
             except Exception as e:  # replay machinery failure -> inconclusive, never a violation
